@@ -454,7 +454,11 @@ struct Sys
 
     // Replay a history on a fresh stepper with the ledger; optionally drain afterwards.
     // Touches only this Sys (thread-safe across different Sys objects).
-    Replay replay(History const& h, bool drain)
+    //! drain: 0 = stop after the history, 1 = continue with all-die until the loop drains,
+    //! 2 = ABANDON the tracks in flight: Stepper::reset_state(), then one fresh single-primary
+    //!     event transported to completion under a new ledger (no slot may resurrect a track of
+    //!     the abandoned event, the counters must be true from the first step on)
+    Replay replay(History const& h, int drain)
     {
         Replay out;
         int const asan0 = asan_errors();
@@ -553,7 +557,75 @@ struct Sys
                 ++stepno;
             }
             out.canon = canon(*st);
-            if (drain && asan_errors() == asan0)
+            if (drain == 2 && asan_errors() == asan0)
+            {
+                st->reset_state();
+                auto const& sr = st->state_ref();
+                unsigned held = 0;
+                for (unsigned i = 0; i < cfg.slots; ++i)
+                    held += (sr.sim.status[TrackSlotId{i}] != TrackStatus::inactive);
+                auto const& c0 = st->state().counters();
+                if (held != 0 || c0.num_alive != 0 || c0.num_initializers != 0 || c0.num_active != 0)
+                    L.fail("tracks:state-not-clean-after-reset",
+                           fmt("after reset_state(): %u slots still hold a track, counters alive=%u "
+                               "queued=%u active=%u",
+                               held, unsigned(c0.num_alive), unsigned(c0.num_initializers),
+                               unsigned(c0.num_active)));
+                Ledger L2;
+                static std::vector<int> const none;
+                ch.script = &none;
+                st->reseed(UniqueEventId{7});
+                unsigned guard = 0;
+                bool first = true;
+                StepperResult res;
+                bool more = true;
+                while (more && L.error.empty() && L2.error.empty())
+                {
+                    size_t begin = P->recorder->steps.size();
+                    cur_begin = begin;
+                    ch.log.clear();
+                    std::vector<unsigned> events;
+                    if (first)
+                    {
+                        cur_inject = 1;
+                        events.push_back(0);
+                        Primary prim = P->primary(0, 1.0, {0.2, 0.1, 0.05}, {1, 0, 0}, 0);
+                        res = (*st)(Span<Primary const>{&prim, 1});
+                        first = false;
+                    }
+                    else
+                    {
+                        cur_inject = 0;
+                        res = (*st)();
+                    }
+                    if (asan_errors() != asan0)
+                        break;
+                    L2.step(P->recorder->steps, begin, ch.log, res, events, cfg.slots, gamma_id,
+                            electron_id);
+                    unsigned alive_true = 0;
+                    for (unsigned i = 0; i < cfg.slots; ++i)
+                    {
+                        auto stt = sr.sim.status[TrackSlotId{i}];
+                        alive_true += (stt == TrackStatus::alive || stt == TrackStatus::initializing);
+                    }
+                    if (alive_true != res.alive)
+                        L2.fail("counters:alive-vs-state",
+                                fmt("after reset_state(): alive=%u but %u slots hold an alive track",
+                                    res.alive, alive_true));
+                    more = bool(res);
+                    if (++guard > 4 * (cfg.slots + cfg.capacity) + 16)
+                    {
+                        L2.fail("tracks:loop-does-not-drain", "event after reset_state() does not end");
+                        break;
+                    }
+                }
+                if (!more && L2.error.empty())
+                    L2.finish();
+                if (L.error.empty() && !L2.error.empty())
+                    L.error = L2.error.substr(0, L2.error.find('|')) + "[after-reset]"
+                              + L2.error.substr(L2.error.find('|'));
+            }
+            else if (drain && asan_errors() == asan0)
             {
                 // continue with the all-die default until the loop drains
                 static std::vector<int> const none;
@@ -749,8 +821,10 @@ static void search(vf::Run& R, Config cfg, int max_depth, int max_primaries, uns
             return;
         R.begin_case(rc, 600);
         Sys sys(cfg);
-        History h = parse_history(rc.substr(cname.size() + 1));
-        auto rp = sys.replay(h, true);
+        bool const reset_mode = rc.size() > 7 && rc.compare(rc.size() - 7, 7, "|reset|") == 0;
+        History h = parse_history(
+            rc.substr(cname.size() + 1, rc.size() - cname.size() - 1 - (reset_mode ? 7 : 0)));
+        auto rp = sys.replay(h, reset_mode ? 2 : 1);
         fprintf(stderr, "replay %s: canon=%s overflow=%d error=%s\n", rc.c_str(), rp.canon.c_str(),
                 int(rp.overflow), rp.error.c_str());
         for (auto const& r : sys.P->recorder->steps)
@@ -839,7 +913,7 @@ static void search(vf::Run& R, Config cfg, int max_depth, int max_primaries, uns
                 std::string id = cname + "|" + to_string(probe);
                 strncpy(t_case, id.c_str(), sizeof(t_case) - 1);
                 // the default-choice execution IS one of the transitions (all die+0)
-                probes[i].rp = sys[t]->replay(probe, false);
+                probes[i].rp = sys[t]->replay(probe, 0);
             });
             bool asan_seen = false;
             auto stop_if_asan = [&] {
@@ -900,7 +974,7 @@ static void search(vf::Run& R, Config cfg, int max_depth, int max_primaries, uns
                 h2.push_back({tasks[i].inject, tasks[i].choices});
                 std::string id = cname + "|" + to_string(h2);
                 strncpy(t_case, id.c_str(), sizeof(t_case) - 1);
-                tasks[i].rp = sys[t]->replay(h2, true);
+                tasks[i].rp = sys[t]->replay(h2, 1);
             });
             for (auto& tk : tasks)
             {
@@ -914,7 +988,7 @@ static void search(vf::Run& R, Config cfg, int max_depth, int max_primaries, uns
                 R.count("drain_steps", rp.drain_steps);
                 if (!checked_determinism)
                 {
-                    Replay again = sys[0]->replay(h2, true);
+                    Replay again = sys[0]->replay(h2, 1);
                     if (again.canon != rp.canon || again.error != rp.error)
                         R.harness_error("replay of the same history is not deterministic: " + cid);
                     checked_determinism = true;
@@ -950,6 +1024,20 @@ static void search(vf::Run& R, Config cfg, int max_depth, int max_primaries, uns
                 R.state(vf::hash_mix(vf::hash_str(cname), vf::hash_str(rp.canon)));
                 int& times = seen[rp.canon];
                 ++times;
+                if (times == 1)
+                {
+                    // first time this bookkeeping state is reached: abandon it, reset, run a
+                    // fresh event (see replay(), drain mode 2)
+                    Replay rr = sys[0]->replay(h2, 2);
+                    R.count("reset_epilogues");
+                    R.count("transitions", rr.transitions);
+                    if (!rr.error.empty())
+                    {
+                        auto bar = rr.error.find('|');
+                        R.violation(rr.error.substr(0, bar), cid + "|reset|",
+                                    cname + ": " + rr.error.substr(bar + 1));
+                    }
+                }
                 if (times <= 2)
                 {
                     // expand the first two histories of each canon (bisimulation test)
